@@ -5,6 +5,6 @@ CONSTANTS
  MaxGen = 8
  MaxObs = 8
  MaxOps = 99
- Aware = {FALSE, TRUE}
+ Aware = {TRUE}
 VIEW TView
 CHECK_DEADLOCK FALSE
